@@ -1099,3 +1099,21 @@ Proof. vm_compute. reflexivity. Qed.
 
 Lemma ex_tree_ok : NewickMoreProofs.rt_ok_json NewickMoreProofs.ex_tree_json = true.
 Proof. exact NewickMoreProofs.ex_tree_json_ok. Qed.
+
+(** the boundary value [index_name = ""] (what [DictArray.to_table()] produces) is a value, not "no index" *)
+Definition ex_table_empty_index : table :=
+  mkTab (Some []) [(k_title, JStr [])]
+        [ mkCol [] [85; 51; 50] [JStr [97]; JStr [98]]; mkCol [120] [105; 110; 116; 54; 52] [JInt 0; JInt 1] ].
+
+Lemma empty_index_name_kept_lemma :
+  table_okb ex_table_empty_index = true /\
+  forall d, table_to_dict ex_table_empty_index = JObj d ->
+    exists t', table_of_dict d = Ok t' /\ t_index t' = Some [] /\ t_index t' <> None /\
+      observe_table t' = observe_table ex_table_empty_index.
+Proof.
+  split; [vm_compute; reflexivity|]. intros d Hd.
+  destruct (table_roundtrip_lemma ex_table_empty_index d ltac:(vm_compute; reflexivity) Hd) as (t' & Hdec & Hobs & _).
+  exists t'. split; [exact Hdec|]. unfold observe_table in Hobs.
+  assert (Hi : t_index t' = Some []) by (injection Hobs as H1 _ _; exact H1).
+  split; [exact Hi|]. split; [rewrite Hi; discriminate|exact Hobs].
+Qed.
